@@ -397,14 +397,73 @@ Definition final_agree (s : gstate) : bool :=
   forallb (entry_agrees s) (futs (g_core s)) && mem_agrees (g_core s) && heap_agrees (g_core s).
 
 (* ---------------------------------------------------------------- finite exploration (used reflectively) *)
-Definition op_eq_dec : forall a b : op, {a = b} + {a <> b}.
-Proof. repeat decide equality. Defined.
-Definition gstate_eq_dec : forall a b : gstate, {a = b} + {a <> b}.
-Proof. repeat decide equality. Defined.
+(* boolean equality of states (proved to imply Leibniz equality in Proofs.v) *)
+Fixpoint list_eqb {A} (e : A -> A -> bool) (a b : list A) : bool :=
+  match a, b with
+  | [], [] => true
+  | x :: a', y :: b' => e x y && list_eqb e a' b'
+  | _, _ => false
+  end.
+Definition opt_eqb {A} (e : A -> A -> bool) (a b : option A) : bool :=
+  match a, b with None, None => true | Some x, Some y => e x y | _, _ => false end.
+Definition exn_eqb (a b : exn) : bool :=
+  match a, b with
+  | EAssert, EAssert | EKey, EKey | ENotFound, ENotFound | EMemory, EMemory => true
+  | _, _ => false
+  end.
+Definition outcome_eqb (a b : outcome) : bool :=
+  match a, b with OkC c, OkC d => zlist_eqb c d | Exn e, Exn f => exn_eqb e f | _, _ => false end.
+Definition entry_eqb (a b : entry) : bool :=
+  Bool.eqb (e_w a) (e_w b) && (e_size a =? e_size b) && (e_fut a =? e_fut b)%nat.
+Definition fe_eqb (a b : file * entry) : bool := (fst a =? fst b) && entry_eqb (snd a) (snd b).
+Definition fc_eqb (a b : file * content) : bool := (fst a =? fst b) && zlist_eqb (snd a) (snd b).
+Definition core_eqb (a b : core) : bool :=
+  (mem a =? mem b) && list_eqb fe_eqb (futs a) (futs b) && zlist_eqb (heap a) (heap b) && list_eqb fc_eqb (disk a) (disk b).
+Definition tkind_eqb (a b : tkind) : bool :=
+  match a, b with KLoad, KLoad | KWrite, KWrite => true | _, _ => false end.
+Definition tpc_eqb (a b : tpc) : bool :=
+  match a, b with T1, T1 | T2, T2 | T3, T3 | T4, T4 | TEnd, TEnd => true | _, _ => false end.
+Definition task_eqb (a b : task) : bool :=
+  tpc_eqb (k_pc a) (k_pc b) && tkind_eqb (k_kind a) (k_kind b) && (k_file a =? k_file b) &&
+  zlist_eqb (k_data a) (k_data b) && opt_eqb outcome_eqb (k_res a) (k_res b).
+Definition op_eqb (a b : op) : bool :=
+  match a, b with
+  | OGet f, OGet g => f =? g
+  | OUpd f c, OUpd g d => (f =? g) && zlist_eqb c d
+  | OUnl f, OUnl g => f =? g
+  | _, _ => false
+  end.
+Definition cpc_eqb (a b : cpc) : bool :=
+  match a, b with
+  | CStart, CStart => true
+  | CSize, CSize => true
+  | CLock x, CLock y => x =? y
+  | CWait f p, CWait g q => (f =? g)%nat && Bool.eqb p q
+  | _, _ => false
+  end.
+Definition client_eqb (a b : client) : bool :=
+  (c_idx a =? c_idx b)%nat && cpc_eqb (c_pc a) (c_pc b) && list_eqb op_eqb (c_ops a) (c_ops b).
+Definition result_eqb (a b : result) : bool :=
+  match a, b with
+  | RCont c, RCont d => zlist_eqb c d
+  | RBool p, RBool q => Bool.eqb p q
+  | RNone, RNone => true
+  | RExn e, RExn f => exn_eqb e f
+  | _, _ => false
+  end.
+Definition event_eqb (a b : event) : bool :=
+  match a, b with
+  | ECall t i o, ECall u j p => (t =? u)%nat && (i =? j)%nat && op_eqb o p
+  | ERet t i r, ERet u j q => (t =? u)%nat && (i =? j)%nat && result_eqb r q
+  | _, _ => false
+  end.
+Definition gstate_eqb (a b : gstate) : bool :=
+  (g_k a =? g_k b) && list_eqb task_eqb (g_tasks a) (g_tasks b) && list_eqb event_eqb (g_hist a) (g_hist b) &&
+  core_eqb (g_core a) (g_core b) && list_eqb client_eqb (g_clients a) (g_clients b).
 
 (* a hash; collisions only cost time (buckets) *)
 Definition dg (acc : positive) (d : Z) : positive :=
-  Pos.add (Pos.mul acc 16) (Z.to_pos (1 + Z.abs d mod 15)).
+  Pos.add (Pos.mul 16 acc) (Z.to_pos (1 + Z.abs d mod 15)).
 Definition tpc_code (p : tpc) : Z := match p with T1 => 1 | T2 => 2 | T3 => 3 | T4 => 4 | TEnd => 5 end.
 Definition cpc_code (p : cpc) : Z :=
   match p with CStart => 0 | CSize => 1 | CLock _ => 2 | CWait f a => 3 + 2 * Z.of_nat f + (if a then 1 else 0) end.
@@ -427,7 +486,7 @@ Definition sset := PositiveMap.t (list gstate).
 
 Definition smem (s : gstate) (S : sset) : bool :=
   match PositiveMap.find (enc s) S with
-  | Some l => existsb (fun s' => if gstate_eq_dec s s' then true else false) l
+  | Some l => existsb (gstate_eqb s) l
   | None => false
   end.
 
